@@ -125,16 +125,65 @@ func longLine(r *rng) string {
 	}
 }
 
-func randContent(r *rng) string {
+// hugeLine is a valid rule (or a comment) whose LINE is 64 KiB .. 200 KiB long,
+// around the limits a standard line reader may have (bufio.MaxScanTokenSize =
+// 65536, twice that) -- far beyond the 4 KiB read buffer of longLine.
+func hugeLine(r *rng) string {
+	n := pick(r, []int{65500, 65533, 65534, 65535, 65536, 65537, 65538, 65600, 70000, 98304, 131071, 131072, 131073, 200000})
+	pad := func(k int) string {
+		if k < 0 {
+			k = 0
+		}
+
+		return strings.Repeat("a", k)
+	}
+	switch r.n(6) {
+	case 0:
+		// the line is n bytes long
+		return "||example.org/" + pad(n-len("||example.org/^$script")) + "^$script"
+	case 1:
+		// a $domain list
+		var sb strings.Builder
+		sb.WriteString("||ads.example^$domain=")
+		for i := 0; sb.Len() < n-20; i++ {
+			fmt.Fprintf(&sb, "~h%05d.example|", i)
+		}
+		sb.WriteString("victim.com")
+
+		return sb.String()
+	case 2:
+		return "example.org##." + pad(n-len("example.org##."))
+	case 3:
+		return "0.0.0.0 " + pad(60) + ".org # " + pad(n-80)
+	case 4:
+		return "! " + pad(n-2)
+	default:
+		// n bytes of rule, surrounded by blanks the retrieval has to trim
+		return "  ||" + pad(n-len("||.org^")) + ".org^ \t"
+	}
+}
+
+func randContent(r *rng) string { return randContentHuge(r, false) }
+
+func randContentHuge(r *rng, huge bool) string {
 	var sb strings.Builder
 	nl := r.n(13)
-	if r.chance(1, 12) {
+	if r.chance(1, 12) && !huge {
 		nl = 0
+	}
+	if huge && nl < 3 {
+		nl = 3
+	}
+	hugeAt := -1
+	if huge {
+		hugeAt = r.n(nl)
 	}
 	eol := pick(r, []string{"\n", "\n", "\r\n"})
 	long := r.chance(1, 3)
 	for i := 0; i < nl; i++ {
 		switch {
+		case i == hugeAt:
+			sb.WriteString(hugeLine(r))
 		case long && r.chance(1, 5):
 			sb.WriteString(longLine(r))
 		case r.chance(1, 25):
@@ -303,6 +352,12 @@ func genC11Store(r *rng, n int, w *bufio.Writer) {
 			used[id] = true
 			lists[i] = c11List{id: id, ign: r.chance(1, 3), content: randContent(r)}
 		}
+		if it%12 == 5 {
+			// one list with a 64..200 KiB line (retrieved by its index below like every other rule; the rules
+			// after it too)
+			k := r.n(nl)
+			lists[k].content = randContentHuge(r, true)
+		}
 		dup := nl > 1 && r.chance(1, 10)
 		if dup {
 			lists[1+r.n(nl-1)].id = lists[0].id
@@ -321,12 +376,20 @@ func genC11Store(r *rng, n int, w *bufio.Writer) {
 		for i, l := range lists {
 			wl[i] = wlist(fmt.Sprint(l.id), wbool(l.ign), wb(l.content))
 		}
-		note := fmt.Sprintf("lists=%d ids=%v", len(lists), func() (ids []int) {
+		note := fmt.Sprintf("lists=%d ids=%v longest line=%d bytes", len(lists), func() (ids []int) {
 			for _, l := range lists {
 				ids = append(ids, l.id)
 			}
 
 			return ids
+		}(), func() (m int) {
+			for _, l := range lists {
+				for _, ln := range strings.Split(l.content, "\n") {
+					m = max(m, len(ln))
+				}
+			}
+
+			return m
 		}())
 
 		ss, fs, serr, ferr := makeStorages(lists, dir)
@@ -381,14 +444,26 @@ func genC11Store(r *rng, n int, w *bufio.Writer) {
 			}
 		}
 		shuffle(r, idxs)
-		if len(idxs) > 40 {
-			idxs = idxs[:40]
-		}
-		// what the lists will be asked to parse
 		byID := map[int]string{}
 		for _, l := range lists {
 			byID[l.id] = l.content
 		}
+		if len(idxs) > 40 {
+			// keep the indices of very long lines when the sample is cut
+			isHuge := func(idx int64) bool {
+				id, off := filterlist.VerifRuleListIdx(idx)
+				c, ok := byID[int(id)]
+				if !ok || off < 0 || int(off) >= len(c) {
+					return false
+				}
+				e := strings.IndexByte(c[off:], '\n')
+
+				return e < 0 && len(c)-int(off) > 60000 || e > 60000
+			}
+			sort.SliceStable(idxs, func(a, b int) bool { return isHuge(idxs[a]) && !isHuge(idxs[b]) })
+			idxs = idxs[:40]
+		}
+		// what the lists will be asked to parse
 		for _, idx := range idxs {
 			id, off := filterlist.VerifRuleListIdx(idx)
 			c, ok := byID[int(id)]
